@@ -275,9 +275,16 @@ type outMsg struct {
 	Error  json.RawMessage `json:"error"`
 }
 
+// syncTimeouts counts sentinel requests that were never answered in this process.
+var syncTimeouts int
+
 // send writes raw bytes, then a sentinel request, and collects everything the server wrote until the
 // sentinel's response. It returns the messages (without the sentinel's response) and a failure description.
 func (h *harness) send(raw []byte, expectExit bool) ([]outMsg, string) {
+	if syncTimeouts >= 3 {
+		// a server that has stopped answering is reported once per conversation without waiting again
+		return nil, "no response to a request within 5 s (server hung or dropped the request; seen before in this run)"
+	}
 	write := func(b []byte) string {
 		done := make(chan error, 1)
 		go func() { _, err := h.in.Write(b); done <- err }()
@@ -316,11 +323,11 @@ func (h *harness) send(raw []byte, expectExit bool) ([]outMsg, string) {
 	}
 	h.syncN++
 	sid := fmt.Sprintf("sync-%d", h.syncN)
-	if f := write(frame(fmt.Sprintf(`{"jsonrpc":"2.0","id":%q,"method":"$/verifSync"}`, sid))); f != "" {
+	if f := write(frame(fmt.Sprintf(`{"jsonrpc":"2.0","id":%q,"method":"workspace/verifSync"}`, sid))); f != "" {
 		return nil, f
 	}
 	h.sent++
-	deadline := time.After(20 * time.Second)
+	deadline := time.After(5 * time.Second)
 	var all []outMsg
 	for {
 		msgs, f := h.parse()
@@ -339,7 +346,8 @@ func (h *harness) send(raw []byte, expectExit bool) ([]outMsg, string) {
 		case <-h.exited:
 			return all, "server loop returned although no exit notification was sent"
 		case <-deadline:
-			return all, "no response to a request within 20 s (server hung or dropped the request)"
+			syncTimeouts++
+			return all, "no response to a request within 5 s (server hung or dropped the request)"
 		case <-time.After(200 * time.Microsecond):
 		}
 	}
@@ -500,7 +508,7 @@ func requestFrame(s mstep) []byte {
 			params = `,"params":{` + td + `}`
 		case "textDocument/codeAction":
 			params = `,"params":{` + td + `,"range":{"start":` + posJSON(s.Pos) + `,"end":` + posJSON(s.Pos) + `},"context":{"diagnostics":[{"range":{"start":` + posJSON(s.Pos) + `,"end":` + posJSON(s.Pos) + `},"message":"expected FROM, got x","severity":1}]}}`
-		case "workspace/unknownMethod":
+		case "workspace/unknownMethod", "$/unknownRequest":
 			params = `,"params":{"x":1}`
 		default:
 			params = `,"params":{` + td + `,"position":` + posJSON(s.Pos) + `}`
@@ -592,6 +600,10 @@ func malformedFrame(s mstep) []byte {
 		return []byte("Content-Length: twelve\r\n\r\n")
 	case "headerOversize":
 		return []byte("Content-Length: 99999999999\r\n\r\n")
+	case "headerNegative":
+		return []byte("Content-Length: -5\r\n\r\n")
+	case "headerNoLength":
+		return []byte("Content-Type: application/vscode-jsonrpc; charset=utf-8\r\n\r\n")
 	case "headerExtraField":
 		body := fmt.Sprintf(`{"jsonrpc":"2.0","id":%d,"method":"shutdown"}`, s.ID)
 		return []byte(fmt.Sprintf("Content-Type: application/vscode-jsonrpc; charset=utf-8\r\nContent-Length: %d\r\n\r\n%s", len(body), body))
